@@ -46,6 +46,9 @@ fn main() {
     let code = match prop {
         "C01" => dispatch(props::c01::C01, mode, arg),
         "C03" => dispatch(props::c03::C03, mode, arg),
+        "C04" => dispatch(props::c04::C04, mode, arg),
+        "C05" => dispatch(props::c05::C05, mode, arg),
+        "C12" => dispatch(props::c12::C12, mode, arg),
         _ => {
             eprintln!("unknown property {}", prop);
             2
